@@ -53,6 +53,18 @@ def Num.leC (x : Num) (c : Dy) : Bool :=
   | .nan => false
   | .inf neg => neg
 
+/-- `constant.min_value is not None and not value >= constant.min_value` is false -/
+def Num.geO (x : Num) (c : Option Dy) : Bool :=
+  match c with
+  | some m => x.geC m
+  | none => true
+
+/-- `constant.max_value is not None and not value <= constant.max_value` is false -/
+def Num.leO (x : Num) (c : Option Dy) : Bool :=
+  match c with
+  | some m => x.leC m
+  | none => true
+
 /-- Python `int(x)`: truncation toward zero; `ValueError` for NaN, `OverflowError` for ±inf -/
 def Num.toInt : Num → Except Err Int
   | .int n => .ok n
@@ -90,9 +102,9 @@ def ecKind (i : Id) : EcKind :=
 structure Ec where
   id : Id
   name : String
-  min : Dy
+  min : Option Dy    -- `min_value` (`None`: no lower limit; S2F30 then shows an empty ECMIN)
   minF : Bool        -- declared as a float (only how S2F30 shows it)
-  max : Dy
+  max : Option Dy    -- `max_value`
   maxF : Bool
   dflt : Num
   unit : String
@@ -198,8 +210,7 @@ def ecValue (s : St) (ec : Ec) : Except Err Val :=
     else
       match ec.value with
       | .int n => .ok (.flt n 0)
-      | .flt d => .ok (.flt d.num d.k)
-      | _ => .error .other
+      | v => .ok (numVal v)     -- (NaN/±inf: shown by a placeholder text; only storable in a constant without limits, not exercised)
 
 def s2f13Loop (s : St) : List Id → Except Err (List Val)
   | [] => .ok []
@@ -242,7 +253,10 @@ structure EcRow where
   unit : String
 deriving DecidableEq, Repr
 
-def dyVal (d : Dy) (isF : Bool) : Val := if isF then .flt d.num d.k else .nums [d.num]
+def dyVal (d : Option Dy) (isF : Bool) : Val :=
+  match d with
+  | none => .text ""
+  | some d => if isF then .flt d.num d.k else .nums [d.num]
 
 def ecRow (ec : Ec) : EcRow := ⟨ec.id, ec.name, dyVal ec.min ec.minF, dyVal ec.max ec.maxF, numVal ec.dflt, ec.unit⟩
 
@@ -264,10 +278,12 @@ def s2f29 (s : St) (ids : List Id) : Except Err (List EcRow) :=
 /-- the value `eac` has after one element of the pre-check loop whose constant exists -/
 def eacAfter (s : St) (ec : Ec) (x : Num) (eac : Nat) : Nat :=
   let e1 := if s.typeCheck && ec.intTyped && x.isFloat then 3 else eac
-  let e2 := if !(x.geC ec.min) then 3 else e1
-  if !(x.leC ec.max) then 3 else e2
+  let e2 := if !(x.geO ec.min) then 3 else e1
+  if !(x.leO ec.max) then 3 else e2
 
-/-- pre-check loop of `_on_s02f15` -/
+/-- pre-check loop of `_on_s02f15`.  (A non-number for a constant with NO limit at all is not compared with anything in the
+code and would be stored as it is; the model answers the `TypeError` of the limited case for it too — outside the model, never
+sent by the harness.) -/
 def pre15 (s : St) : Nat → List (Id × Ecv) → Except Err Nat
   | eac, [] => .ok eac
   | eac, (i, v) :: rest =>
